@@ -49,6 +49,7 @@ EVIDENCE_DIR = VERIF / "evidence"
 REPLAY_DIR = VERIF / "replays"
 CORPUS_DIR = VERIF / "corpus"
 KNOWN_FILE = VERIF / "known_findings.json"
+DEDUP_FAILING_BY_SIGNATURE = True
 ALLOWED_AXIOMS = {"propext", "Classical.choice", "Quot.sound"}
 FORBIDDEN = re.compile(
     r"\b(sorry|admit|native_decide|bv_decide|implemented_by|unsafe|extern)\b|^\s*axiom\s|maxHeartbeats\s+0\b",
@@ -502,8 +503,12 @@ def run_check(modname, argv=None):
                                                    "failure": small_msg, "found_by": origin, "signature": sig})
         violations.append(("failing-input", path, small_msg))
 
-    for idx, res, orc in failing[:50]:
+    # failures are de-duplicated by signature BEFORE the cut, so that many failures of one (possibly known) class
+    # cannot hide a different failure that comes later in the case list; at most 50 distinct signatures are handled
+    for idx, res, orc in failing:
         report_failure(cases[idx], orc, "generated cases")
+        if len(reported_sigs) >= 50:
+            break
 
     # ---- 5. broken proof / correspondence: search for a failing input ----------------------------
     searched = 0
